@@ -335,7 +335,9 @@ def run(chk):
 _C = "cnvlib/cnary.py"
 _R = "cnvlib/reports.py"
 MUTANTS = [
+    dict(name="twin: breakpoint counts through numpy", expect="silent", file="cnvlib/reports.py", old="                probes_left = sum(s < curr_end for s in gstarts)\n                probes_right = sum(s >= curr_end for s in gstarts)", new="                probes_left = len([s for s in gstarts if s < curr_end])\n                probes_right = len(gstarts) - probes_left"),
     dict(name="seeded C16c: by_gene skips chromosomes without a named gene", file="cnvlib/cnary.py", old="            # Row positions (not index labels) delimit the half-open slices\n", new="            if all(gene in ignore for gene in subgary._get_gene_map()):\n                continue\n"),
+    dict(name="twin: by_gene maps labels to positions through a dict", expect="silent", file="cnvlib/cnary.py", old="            positions = pd.Series(np.arange(len(subgary)), index=subgary.data.index)\n", new="            positions = {label: pos for pos, label in enumerate(subgary.data.index)}\n"),
     dict(name="by_gene forgets the telomere stretch", file="cnvlib/cnary.py", old="            if prev_idx < len(subgary):", new="            if prev_idx < len(subgary) - 1:"),
     dict(name="regress: label slices in by_gene (pre-fix code)", edits=[
         (_C, "                    start_idx = positions[gene_idx[0]]\n                    end_idx = positions[gene_idx[-1]] + 1\n", "                    start_idx = gene_idx[0]\n                    end_idx = gene_idx[-1] + 1\n"),
